@@ -32,7 +32,7 @@ func init() {
 		ID: "C15",
 		Rule: "case = one Caddyfile generated (seeded) from the grammar documented on the UnmarshalCaddyfile of the layer4 app, servers, listener wrapper, " +
 			"all 19 matchers and all 8 handlers (options, inline and block forms, named matcher sets shared between routes, nesting via subroute/tee/not to depth 3, " +
-			"several servers and several global layer4 blocks, listener-wrapper form; <ranges...> options occasionally use the private_ranges shortcut their parsers accept); oracles: (i) adapter output == expected JSON printed independently from the " +
+			"several servers and several global layer4 blocks, listener-wrapper form; <ranges...> options occasionally use the private_ranges shortcut their parsers accept); between two generated files a Caddyfile that must be rejected is adapted (unknown matcher set / handler / matcher at nesting depths 1-3), which has to fail cleanly and leave the next adaptation unaffected; oracles: (i) adapter output == expected JSON printed independently from the " +
 			"documented JSON structure (semantic comparison), (ii) adapting twice is byte-identical, (iii) the adapted JSON passes caddy.Validate (loads and provisions), " +
 			"(iv) every module's JSON survives unmarshal+marshal (layer4.App, layer4.ListenerWrapper and each nested module with strict decoding). " +
 			"non-trivial = uses >= 2 distinct modules and >= 1 option; distinct = hash of the sorted multiset of (module, option) names used",
@@ -78,7 +78,26 @@ func run(c *fw.Ctx) {
 			continue
 		}
 		one(c, fx, i)
+		// A Caddyfile the adapter has to reject, between two good ones (a long-running Caddy adapts many files, not
+		// all of them valid): it must come back with an error, and it must not change what happens to the next file.
+		bad := badCaddyfiles[i%len(badCaddyfiles)]
+		var err error
+		if p := guard(func() { _, _, err = adapt(bad) }); p != nil {
+			c.Violation("C15 adapter panics on an invalid Caddyfile in "+p.frame, p.val, map[string]any{"caddyfile": bad})
+		} else if err == nil {
+			c.Violation("C15 adapter accepts an invalid Caddyfile", "no error for: "+bad, map[string]any{"caddyfile": bad})
+		}
+		c.Obs("invalid_caddyfiles_rejected", 1)
 	}
+}
+
+// badCaddyfiles fail at different nesting depths of the layer4 route grammar.
+var badCaddyfiles = []string{
+	"{\n\tlayer4 {\n\t\t:7001 {\n\t\t\troute @undefined {\n\t\t\t\techo\n\t\t\t}\n\t\t}\n\t}\n}\n",
+	"{\n\tlayer4 {\n\t\t:7002 {\n\t\t\troute {\n\t\t\t\tno_such_handler\n\t\t\t}\n\t\t}\n\t}\n}\n",
+	"{\n\tlayer4 {\n\t\t:7003 {\n\t\t\troute {\n\t\t\t\tsubroute {\n\t\t\t\t\troute @nope {\n\t\t\t\t\t\techo\n\t\t\t\t\t}\n\t\t\t\t}\n\t\t\t}\n\t\t}\n\t}\n}\n",
+	"{\n\tlayer4 {\n\t\t:7004 {\n\t\t\t@m no_such_matcher\n\t\t\troute @m {\n\t\t\t\techo\n\t\t\t}\n\t\t}\n\t}\n}\n",
+	"{\n\tlayer4 {\n\t\t:7005 {\n\t\t\troute {\n\t\t\t\tsubroute {\n\t\t\t\t\troute {\n\t\t\t\t\t\tsubroute {\n\t\t\t\t\t\t\troute {\n\t\t\t\t\t\t\t\tbogus\n\t\t\t\t\t\t\t}\n\t\t\t\t\t\t}\n\t\t\t\t\t}\n\t\t\t\t}\n\t\t\t}\n\t\t}\n\t}\n}\n",
 }
 
 func one(c *fw.Ctx, fx *Fixtures, i int) {
